@@ -78,6 +78,16 @@ user, 1..4 distributed peers, 5..8 other users), connection ids are creation ord
         an asker goes to its obfuscated port (obfuscated PeerInit and reply). The remote ends decode with the harness's OWN
         implementation of the obfuscation: what is judged is what a protocol-following peer can read from the bytes.
 
+  ["creds", n]
+        THE CONFIGURED LOGIN NAME CHANGES DURING THE SESSION (modelled: `SOp.credentials` of Model/DistSearch.lean, a step
+        that changes nothing the handlers read): `settings.credentials.username = <name n>` — what an account switch in a
+        settings dialog stores for the NEXT login. The logged-in user stays the session's (`session.user.name`): its
+        searches are still neither forwarded nor answered, those of user n are passed on and answered like anybody's.
+  family "parentback": THE PARENT'S USER OPENS A SECOND CONNECTION after its name has dropped out of the 20-entry
+        potential-parents cache (20 further names proposed by the server): ["pp",[P]], P announces, 2 x ["pp",[10 names]],
+        ["in", P] (or a "join"), carriers from the parent / the server. "Never back to the parent" is judged per USER on
+        the wire: no connection of the parent's user may receive a forwarded search (`C14-forward-to-parent-user`).
+
 After every op the loop is run to quiescence. For a search op the observation is: the DistributedSearchRequest
 frames (and any other frame) each distributed remote received, the PeerSearchReply frames (and anything else)
 each user's peer endpoint received, the SearchRequestReceivedEvents, any other frame the server received
@@ -561,6 +571,7 @@ async def _scenario(loop, case: dict):
                     'unread': {r.cid: len(r.reader._buffer) for r in w.remotes
                                if remote_open(r) and len(r.reader._buffer)},
                     'session': state['session'] is not None,
+                    'configured': unum(settings.credentials.username),
                     'dn_session': dn._session is not None, 'sm_session': sm._session is not None}
 
         def marks():
@@ -644,6 +655,10 @@ async def _scenario(loop, case: dict):
                 st = issue_search(op)
                 inj.append(now() if st == 'ok' else None)
                 return st
+            if k == 'creds':
+                # configuration for the NEXT login (pydantic model, validate_assignment): the session is not touched
+                settings.credentials.username = uname(op[1])
+                return 'ok'
             raise ValueError(f'unknown op {op!r}')
 
         def issue_search(op) -> str:
@@ -1018,6 +1033,10 @@ def _monitor(case: dict, trace: list) -> list[Violation]:
     layout = case.get('layout', 1)
 
     def add(sig, what, k, observed=None, required=None):
+        cfg = trace[k].get('before', {}).get('configured', ME)
+        if cfg != ME:
+            what += (f' [the configured login name (settings.credentials.username) is user {cfg} since a "creds" op; the '
+                     f'logged-in user is the session\'s, user {ME}]')
         vs.append(Violation(sig, f'after op #{k} {case["ops"][k]}: {what}', case, observed=observed,
                             required=required))
 
@@ -1077,6 +1096,18 @@ def _monitor(case: dict, trace: list) -> list[Violation]:
                                                          else 'a candidate / other distributed connection')
                 add('C14-forward-to-non-child', f'connection {c} ({role}) received {len(frs)} forwarded search '
                     f'request(s); children are {sorted(allowed, key=str)}', k, observed=frs)
+        # --- never back to the parent, judged per USER on the wire: while connection `parent` is our parent (before and
+        #     after the op: the same connection throughout), no OTHER connection of the parent's user receives a forwarded
+        #     search either — the library refuses the parent's user as a child (`_check_if_new_child`) and a child's user
+        #     as parent (`_check_if_new_parent`), whatever the potential-parents cache still remembers
+        names = s.get('names', {})
+        if parent is not None and s['parent'] == parent and names.get(parent) is not None:
+            for c, frs in s['fwd'].items():
+                if c != parent and c in allowed and names.get(c) == names[parent]:
+                    add('C14-forward-to-parent-user', f'connection {c}, another connection of user {names[c]} whose '
+                        f'connection {parent} is our parent, received {len(frs)} forwarded search request(s): the searches '
+                        f'go back to the parent (children listed by the library: {kids_a})', k, observed=frs,
+                        required='nothing to any connection of the parent\'s user')
         own = [r for r in reqs if r[5] == ME]
         foreign_t = [(r, t) for r, t in reqs_t if r[5] != ME]
         # --- own searches: neither forwarded nor answered
@@ -1202,7 +1233,7 @@ def _gen_case(rng: random.Random, kind: Optional[str] = None) -> dict:
     peers = [1, 2, 3, 4]
     kind = kind or rng.choice(['root', 'root', 'parent', 'parent', 'parent', 'churn', 'churn', 'sources', 'burst',
                                'nosession', 'fault', 'fault', 'join', 'join', 'join', 'rfault', 'rfault',
-                               'closing', 'closing', 'closing'])
+                               'closing', 'closing', 'closing', 'creds', 'creds', 'parentback', 'parentback'])
     # how the remote ends reach us / we reach the askers: a quarter of the joins and of the askers' own connections go
     # through the obfuscated listening port; the server reports a plain port, both, or only an obfuscated one for askers
     p_obf = rng.choice([0.0, 0.25, 0.25, 0.6])
@@ -1501,6 +1532,65 @@ def _gen_case(rng: random.Random, kind: Optional[str] = None) -> dict:
         do(['closing', victim, [trigger, hold], during])
         for _ in range(rng.choice([0, 1, 1, 2])):
             do(search(src if victim != par else 's', foreign=True))
+    elif kind == 'creds':
+        # the configured login name is changed while the session lasts (an account switch stored for the next login): "the
+        # logged-in user" stays the session's. Carriers by the session's user, by the newly configured user and by others,
+        # over all three carriers, with 1-3 children, as branch root or below a parent
+        layout = rng.choice([1, 1, 2, 2, 3])
+        children(max(1, nchild))
+        par = None
+        if rng.random() < 0.5:
+            par, _ = get_parent(rng.random() < 0.2)
+        src = par if par is not None else 's'
+        other = rng.choice([1, 2, 3, 4, 5, 5, 8, 8, 6, 7])
+
+        def ask(u):
+            carrier = 'server' if src == 's' else rng.choice(['dist', 'dist', 'legacy'])
+            return ['search', src, carrier, 3 if rng.random() < 0.9 else rng.choice(CODES), rng.choice(UNKNOWNS), u,
+                    rng.choice(TICKETS) if rng.random() < 0.7 else rng.randrange(2 ** 32),
+                    rng.choice(QUERIES[:9]) if rng.random() < 0.8 else query()]
+        if rng.random() < 0.3:
+            do(ask(rng.choice([ME, other])))               # before the change
+        do(['creds', other])
+        for _ in range(rng.choice([2, 3, 4])):
+            do(ask(rng.choice([ME, ME, other, other, other, user()])))
+        if rng.random() < 0.35:
+            do(['creds', rng.choice([ME, ME, rng.choice([1, 2, 5, 8])])])      # changed back / changed again
+            do(ask(rng.choice([ME, other, ops[-1][1]])))
+            if rng.random() < 0.5:
+                do(inop(rng.choice([5, 8] + peers)))
+                do(ask(rng.choice([ME, other])))
+    elif kind == 'parentback':
+        # the parent's user opens a second (unrequested) connection after its name has dropped out of the 20-entry
+        # potential-parents cache (the server went on proposing names): refused as a child by the user-name guard alone.
+        # (19 / 10 further names: the cache still remembers it.) Carriers from the parent and the server afterwards
+        pn = rng.choice(peers)
+        others = [q for q in peers if q != pn]
+        for nm in rng.sample(others + [5, 8], rng.choice([0, 1, 1, 2])):
+            do(inop(nm))
+        par = nconn
+        do(['pp', [pn]])
+        for o in rng.choice([[['level', par, rng.choice([1, 2, 3])], ['root', par, rng.choice([5, 6])]],
+                             [['root', par, rng.choice([5, 6])], ['level', par, rng.choice([1, 2, 3])]],
+                             [['level', par, 0]], [['level', par, 0]]]):
+            do(o)
+        left = rng.choice([20, 20, 20, 20, 24, 19, 10])
+        while left > 0:
+            n = min(10, left)
+            do(['pp', [rng.choice(others) for _ in range(n)]])
+            left -= n
+
+        def carrier():
+            return search(rng.choice([par, par, par, 's']), foreign=rng.random() < 0.9)
+        if rng.random() < 0.75:
+            do(inop(pn))
+        else:
+            mode = rng.choice([['soon', rng.choice([0, 1, 2]), rng.choice([0, 1])], ['block']])
+            do(['join', pn, mode, [carrier() for _ in range(rng.choice([1, 2]))]] + (['o'] if rng.random() < p_obf else []))
+        if rng.random() < 0.5:
+            do(inop(rng.choice([5, 8])))
+        for _ in range(rng.choice([1, 2, 3])):
+            do(carrier())
     elif kind == 'nosession':
         children(nchild)
         if up and rng.random() < 0.7:
@@ -1523,7 +1613,7 @@ def _gen_case(rng: random.Random, kind: Optional[str] = None) -> dict:
             do(inop(rng.choice(peers)))
         else:
             do(['lost'] if up else ['session'])
-    return {'ops': ops[:14], 'kind': kind, 'layout': layout, 'asker_closes': rng.random() < 0.6,
+    return {'ops': ops[:18 if kind == 'parentback' else 14], 'kind': kind, 'layout': layout, 'asker_closes': rng.random() < 0.6,
             'aport': aport, 'prefer_obf': prefer_obf}
 
 
@@ -1671,6 +1761,23 @@ WITNESSES = {
                 ['join', 2, ['block'], [['search', 0, 'dist', 3, 49, 5, 77, 'rock']], 'o'],
                 ['search', 0, 'legacy', 3, 49, 8, 78, 'one']],
         'kind': 'witness', 'layout': 1, 'asker_closes': True, 'aport': 'both', 'prefer_obf': True},
+    # the configured login name changes during the session (the property holds on HEAD: "own" is the session's user)
+    'creds-changed-during-session': {
+        'ops': [['session'], ['in', 1], ['in', 2], ['creds', 5], ['search', 's', 'server', 3, 49, 5, 77, 'rock'],
+                ['search', 's', 'server', 3, 49, ME, 78, 'rock'], ['creds', ME],
+                ['search', 's', 'server', 3, 49, 5, 79, 'one']],
+        'kind': 'witness', 'layout': 1, 'asker_closes': True},
+    'creds-changed-below-parent': {
+        'ops': [['session'], ['in', 1], ['pp', [2]], ['level', 1, 1], ['root', 1, 5], ['creds', 8],
+                ['search', 1, 'dist', 3, 49, 8, 77, 'rock'], ['search', 1, 'legacy', 3, 49, ME, 78, 'one'],
+                ['search', 1, 'dist', 3, 49, ME, 79, 'one']],
+        'kind': 'witness', 'layout': 2, 'asker_closes': False},
+    # the parent's user connects a second time after its name left the potential-parents cache (the property holds on
+    # HEAD: refused as a child by user name)
+    'parent-user-second-connection': {
+        'ops': [['session'], ['in', 5], ['pp', [1]], ['level', 1, 0], ['pp', [2, 3] * 5], ['pp', [3, 4] * 5], ['in', 1],
+                ['in', 8], ['search', 1, 'dist', 3, 49, 5, 77, 'rock'], ['search', 1, 'legacy', 3, 49, 8, 78, 'one']],
+        'kind': 'witness', 'layout': 1, 'asker_closes': True},
     'fanout-child-write-fails-late': {
         'ops': [['session'], ['in', 1], ['in', 2], ['in', 3],
                 ['fault', 1, 'late', ['search', 's', 'server', 3, 49, 5, 77, 'rock'], []]],
@@ -1699,7 +1806,7 @@ class C14(Property):
     id = 'C14'
     props_module = 'AioslskVerif.Props.C14'
     driver_module = 'AioslskVerif.Driver.C14'
-    rule = ('histories of <= 14 ops: C13 tree ops (session, lost, pp, in, level, root, close, reset, stats) building '
+    rule = ('histories of <= 14 ops (<= 18 in the family parentback): C13 tree ops (session, lost, pp, in, level, root, close, reset, stats) building '
             '0..3 children, a parent and a candidate, interleaved with search carriers (server / distributed / '
             'legacy wrapped, from the server, the parent, a child, a candidate or a dead connection; user in '
             '{own, tree peers, others, search-blocked, otherwise-blocked}; boundary tickets/unknown/codes; 29 '
@@ -1728,7 +1835,15 @@ class C14(Property):
             'obfuscated ports [in every family 0 / 25 / 60 % of the joins and of the askers\' own connections go through the '
             'obfuscated listening port (obfuscated PeerInit; a D connection is then read in the clear, a P connection '
             'obfuscated, by the harness\'s own codec), the server reports a plain / both / only an obfuscated port for the '
-            'askers and network.peer.obfuscate is on or off]); '
+            'askers and network.peer.obfuscate is on or off], '
+            'creds = THE CONFIGURED LOGIN NAME CHANGES DURING THE SESSION [settings.credentials.username is assigned another '
+            'user\'s name (tree peer, other user, blocked user; later changed back or again) with 1-3 children, as branch root '
+            'or below a parent; carriers by the session\'s user, by the newly configured user and by others over all three '
+            'carriers before and after; modelled: SOp.credentials], '
+            'parentback = THE PARENT\'S USER OPENS A SECOND CONNECTION [a proposed peer becomes the parent, the server proposes '
+            '20 / 24 further names in lists of 10 so that the parent\'s name drops out of the 20-entry potential-parents cache '
+            '(19 / 10: it is still cached), then the parent\'s user connects unrequested (plain / obfuscated port, also as a '
+            'join with carriers handled meanwhile), another peer joins, 1-3 carriers from the parent / the server]); '
             'a case is non-trivial when some carrier was forwarded to a child or answered; '
             'distinct = distinct canonical (ops, layout, asker ports, obfuscation preference)')
     assumptions = [
@@ -1765,7 +1880,14 @@ class C14(Property):
         'the connection is lost)',
         'C13 assumptions for the tree part (debug.search_for_parent, reachable potential parents)',
         '"searches that originate from the logged-in user" is read on the session\'s user name; without a session '
-        'nothing is demanded for own-name carriers',
+        'nothing is demanded for own-name carriers. settings.credentials.username is configuration for the NEXT login: '
+        'changing it while the session lasts ("creds") changes neither who the logged-in user is nor whose searches are '
+        'passed on and answered (theorems C14_configured_name_irrelevant, C14_own_is_session_user); the harness keeps '
+        'the session of user 0 for the whole history (no re-login under the new name is generated after a "creds" op)',
+        '"never back to the parent" is judged per USER on the wire: while a connection is our parent (the same connection '
+        'before and after the op) no other connection of that connection\'s user may receive a forwarded search, whatever '
+        'the library lists as children (theorems C14_not_to_others, C14_never_back_to_parent_user; C13\'s invariant '
+        '"no child has the parent\'s user name")',
     ]
     modelled = ('distributed.py: _on_server_search_request, _on_distributed_search_request, '
                 '_on_distributed_server_search_request, send_messages_to_children, and the suspension point of '
@@ -1773,7 +1895,8 @@ class C14(Property):
                 'DataConnection.disconnect between the CLOSING and the CLOSED notification with send_message refusing to write '
                 'meanwhile (SOp.closeBegin, SState.closing / sent), the wire form of a connection after its initialisation '
                 '(Network._finalize_peer_connection / PeerConnection.set_connection_state: table obfAfterInit, read off the code '
-                'behaviourally); search/manager.py: the three '
+                'behaviourally), an assignment of settings.credentials.username during the session (SOp.credentials: read by '
+                'none of the handlers); search/manager.py: the three '
                 'carrier handlers and _query_shares_and_reply (session / own name / search-blocked / no-match '
                 'guards, reply fields, SearchRequestReceivedEvent); tree state = Model/Dist.lean (C13). '
                 'Exercised, not modelled: Network.send_peer_messages / get_peer_connection / '
@@ -1887,6 +2010,16 @@ class C14(Property):
                         res.count('event:forwarded-past-a-closing-child')
                 if any(o[0] == 'search' for o in _flat_ops(op)):
                     b = s['before']
+                    if b.get('configured', ME) != ME and b['session']:
+                        res.count('search-state:configured-name-differs-from-session')
+                        for o in _flat_ops(op):
+                            if o[0] == 'search' and o[5] in (ME, b['configured']):
+                                res.count('event:carrier-of-the-%s-user-after-creds' % ('session' if o[5] == ME else 'configured'))
+                    if b['parent'] is not None and any(c != b['parent'] and s['names'].get(c) == s['names'].get(b['parent'])
+                                                       for c in b['live']):
+                        res.count('search-state:parent-user-has-a-second-connection')
+                        if s['fwd']:
+                            res.count('event:forwarded-past-a-second-connection-of-the-parent-user')
                     res.count('search-state:children=%d' % len(b['children']))
                     res.count('search-state:' + ('has-parent' if b['parent'] is not None else 'no-parent'))
                     if len(b['live']) > len(b['children']) + (1 if b['parent'] is not None else 0):
@@ -1922,7 +2055,9 @@ class C14(Property):
         # CLOSED are reported in one step, or without an obfuscated port, has no such window / connection)
         for key, what in (('event:forwarded-past-a-closing-child', 'no carrier was forwarded past a child between CLOSING and CLOSED'),
                           ('event:forwarded-to-a-child-of-the-obfuscated-port', 'no carrier was forwarded to a child of the obfuscated port'),
-                          ('event:answered-over-an-obfuscated-connection', 'no reply travelled over an obfuscated connection')):
+                          ('event:answered-over-an-obfuscated-connection', 'no reply travelled over an obfuscated connection'),
+                          ('event:carrier-of-the-configured-user-after-creds', 'no carrier of the newly configured user after a change of the configured name'),
+                          ('event:forwarded-past-a-second-connection-of-the-parent-user', 'no carrier was forwarded while the parent\'s user had a second connection')):
             if res.evaluations >= 1000 and not res.distribution.get(key):
                 res.notes.append(f'coverage: {what} in {res.evaluations} cases')
         return res
